@@ -482,4 +482,210 @@ example : walkCopy .asCoded true .wroPutPath .close (.sentinel .eof) = some (.jo
 example : errorsIsNotExist (.wrap (.join2 (.sentinel .eof) (.pathError .enoent))) = true ∧
     osIsNotExist (.wrap (.join2 (.sentinel .eof) (.pathError .enoent))) = false := by decide
 
+/-! ### REAL failures of the file behind a disk put (close(2) / write(2); harness part X) -/
+
+/-- The correspondence includes the real-close cases: for a PLAIN put on a disk bucket, a file
+    whose `write(2)` / `close(2)` really fails behaves — error AND destination — exactly like the
+    wrapper's write / close fault of part A (`writeObj`): what reached the file stays, the failure
+    is joined into the helper's result.  For every schedule, helper plumbing and path. -/
+theorem real_plain_put_is_wrapper_fault (joins : Bool) (s : Sched) (d : Dest) (path : Str)
+    (chunks : List Content) :
+    realPut .asCoded joins false s d path chunks = writeObj joins s d path chunks := by
+  unfold realPut writeObj
+  split
+  · rfl
+  · cases validatePath path with
+    | error e => rfl
+    | ok p => simp [osClose]
+
+/-- storageos' Close as coded returns the result of `file.Close()` — for a plain put as it is,
+    for an atomic put joined with the recorded write error — and renames only when nothing
+    failed. -/
+theorem osClose_reports_every_failure (c : OsClose) :
+    (osClose .asCoded c).1 = (c.fileCloseErr || (c.atomic && (c.writeErr || c.renameErr))) ∧
+    ((osClose .asCoded c).2 = (!c.atomic || !(c.writeErr || c.fileCloseErr || c.renameErr))) := by
+  obtain ⟨a, w, f, r⟩ := c
+  cases a <;> cases w <;> cases f <;> cases r <;> decide
+
+/-- no_silent_failure for real failures, one object, plain or atomic: for EVERY schedule, if the
+    helper reports success then no `write(2)` and no `close(2)` failed and the destination holds
+    the complete content. -/
+theorem realPut_ok (atomic : Bool) (s : Sched) (d d' : Dest) (path : Str) (chunks : List Content)
+    (h : realPut .asCoded true atomic s d path chunks = (false, d')) :
+    d'.fired = d.fired ∧ s.has ⟨path, .close, 0⟩ = false ∧ (writeChunks s path 0 chunks).2 = none ∧
+      ∃ p, validatePath path = .ok p ∧ d'.mem = (p, joinContent chunks) :: d.mem.erase p := by
+  cases atomic with
+  | false =>
+    rw [real_plain_put_is_wrapper_fault] at h
+    obtain ⟨hf, p, hp, hm⟩ := writeObj_ok s d d' path chunks h
+    refine ⟨hf, ?_, ?_, p, hp, hm⟩
+    · cases hc : s.has ⟨path, .close, 0⟩ with
+      | false => rfl
+      | true => have := fault_implies_error_close s d path chunks hc; rw [h] at this; simp at this
+    · cases hw : (writeChunks s path 0 chunks).2 with
+      | none => rfl
+      | some f =>
+        exfalso
+        unfold writeObj at h
+        split at h
+        · simp at h
+        · cases hv : validatePath path with
+          | error e => rw [hv] at h; simp at h
+          | ok q => rw [hv] at h; simp [hw] at h
+  | true =>
+    unfold realPut at h
+    split at h
+    · simp at h
+    · cases hv : validatePath path with
+      | error e => rw [hv] at h; simp at h
+      | ok p =>
+        rw [hv] at h
+        simp only at h
+        have herr := congrArg Prod.fst h
+        have hd := congrArg Prod.snd h
+        simp only [deferJoin_true, Bool.or_eq_false_iff] at herr
+        obtain ⟨hw, hc⟩ := herr
+        have hwn : (writeChunks s path 0 chunks).2 = none := by
+          cases hh : (writeChunks s path 0 chunks).2 with
+          | none => rfl
+          | some f => rw [hh] at hw; simp at hw
+        have hall := writeChunks_none s path 0 chunks hwn
+        have hcl : s.has ⟨path, .close, 0⟩ = false := by
+          cases hcc : s.has ⟨path, .close, 0⟩ with
+          | false => rfl
+          | true => simp [osClose, hwn, hcc] at hc
+        subst hd
+        refine ⟨by simp [hwn, hcl], hcl, hwn, p, rfl, ?_⟩
+        simp [osClose, hwn, hcl, hall]
+
+/-- Conversely a failing `close(2)` is reported by every helper whose deferred Close joins the
+    named return, plain or atomic … -/
+theorem real_close_failure_reported (atomic : Bool) (s : Sched) (d : Dest) (path : Str)
+    (chunks : List Content) (h : s.has ⟨path, .close, 0⟩ = true) :
+    (realPut .asCoded true atomic s d path chunks).1 = true := by
+  unfold realPut
+  split
+  · rfl
+  · cases validatePath path with
+    | error e => rfl
+    | ok p => cases atomic <;> simp [osClose, h]
+
+/-- … and so is a failing `write(2)`. -/
+theorem real_write_failure_reported (atomic : Bool) (s : Sched) (d : Dest) (path : Str)
+    (chunks : List Content) (k : Nat) (hk : k < chunks.length) (h : s.has ⟨path, .write, k⟩ = true) :
+    (realPut .asCoded true atomic s d path chunks).1 = true := by
+  unfold realPut
+  split
+  · rfl
+  · cases validatePath path with
+    | error e => rfl
+    | ok p =>
+      have := writeChunks_fault s path 0 chunks k hk (by simpa using h)
+      simp [this]
+
+/-- atomic_all_or_nothing for real failures: an atomic put whose `write(2)` or `close(2)` failed
+    leaves the destination exactly as it was (the previous object or none) — whatever the
+    helper's plumbing — and a successful one holds the complete content. -/
+theorem real_atomic_put_all_or_nothing (joins : Bool) (s : Sched) (d : Dest) (path : Str)
+    (chunks : List Content) (hput : s.has ⟨path, .put, 0⟩ = false) :
+    (realPut .asCoded joins true s d path chunks).2.mem = d.mem ∨
+    ∃ p, validatePath path = .ok p ∧
+      (realPut .asCoded joins true s d path chunks).2.mem = (p, joinContent chunks) :: d.mem.erase p := by
+  unfold realPut
+  simp only [hput, Bool.false_eq_true, if_false]
+  cases hv : validatePath path with
+  | error e => exact Or.inl rfl
+  | ok p =>
+    cases hw : (writeChunks s path 0 chunks).2 with
+    | some f => exact Or.inl (by simp [osClose, hw])
+    | none =>
+      cases hc : s.has ⟨path, .close, 0⟩ with
+      | true => exact Or.inl (by simp [osClose, hw, hc])
+      | false =>
+        refine Or.inr ⟨p, rfl, ?_⟩
+        simp [osClose, hw, hc, writeChunks_none s path 0 chunks hw]
+
+/-- The decision of the atomic branch is the step machine's: error and final object of `realPut`
+    agree with `atomicRun` failing at the corresponding step (write k = step k+1, the file close
+    = step n+1). -/
+theorem real_atomic_put_agrees_with_atomicRun (s : Sched) (d : Dest) (p : Str) (chunks : List Content)
+    (hput : s.has ⟨p, .put, 0⟩ = false) (hv : validatePath p = .ok p)
+    (hw : (writeChunks s p 0 chunks).2 = none) :
+    let failAt := if s.has ⟨p, .close, 0⟩ then some (chunks.length + 1) else none
+    let r := realPut .asCoded true true s d p chunks
+    r.1 = (atomicRun (d.mem.find p) chunks failAt).1 ∧
+      r.2.mem.find p = (atomicRun (d.mem.find p) chunks failAt).2.final := by
+  cases hc : s.has ⟨p, .close, 0⟩ with
+  | true =>
+    simp only [if_true]
+    rw [atomic_failed_leaves_old _ _ _ (by omega)]
+    unfold realPut
+    simp [hput, hv, hw, hc, osClose]
+  | false =>
+    simp only [Bool.false_eq_true, if_false]
+    rw [atomic_success]
+    unfold realPut
+    simp [hput, hv, hw, hc, osClose, writeChunks_none s p 0 chunks hw, find_cons_eq]
+
+/-- no_silent_failure for the multi-object helpers under real failures (storage.Copy: `par`;
+    Untar / Unzip / walk loops: sequential): success ⇒ no `write(2)` / `close(2)` of any object
+    failed. -/
+theorem realAll_ok (par atomic : Bool) (outer : Option Bool) (houter : outer = none ∨ outer = some true)
+    (s : Sched) (jobs : List (Str × List Content)) (d d' : Dest) (n : Nat)
+    (h : realAll .asCoded par true outer atomic s d jobs = (false, d', n)) :
+    d'.fired = d.fired ∧
+      ∀ j ∈ jobs, s.has ⟨j.1, .close, 0⟩ = false ∧ (writeChunks s j.1 0 j.2).2 = none := by
+  induction jobs generalizing d n with
+  | nil => simp [realAll] at h; obtain ⟨h1, _⟩ := h; subst h1; simp
+  | cons j rest ih =>
+    obtain ⟨p, cs⟩ := j
+    have hstep : ∃ n', (realPut .asCoded true atomic s d p cs).1 = false ∧
+        realAll .asCoded par true outer atomic s (realPut .asCoded true atomic s d p cs).2 rest = (false, d', n') := by
+      rcases houter with e | e <;> subst e <;> cases par <;>
+        simp only [realAll, deferJoin_true, Bool.or_false, Bool.false_eq_true, if_false, if_true] at h
+      all_goals
+        cases hr : (realPut .asCoded true atomic s d p cs).1 with
+        | true => simp [hr] at h
+        | false =>
+          simp only [hr, Bool.false_or, Bool.false_eq_true, if_false] at h
+          have h1 := congrArg Prod.fst h
+          have h2 := congrArg (fun x => x.2.1) h
+          simp only at h1 h2
+          exact ⟨_, rfl, Prod.ext h1 (Prod.ext h2 rfl)⟩
+    obtain ⟨n', hr, hrest⟩ := hstep
+    obtain ⟨hf, hc, hw, _⟩ := realPut_ok atomic s d _ p cs (Prod.ext hr rfl)
+    obtain ⟨ihf, ihall⟩ := ih _ n' hrest
+    refine ⟨by rw [ihf, hf], ?_⟩
+    intro j hj
+    rcases List.mem_cons.mp hj with e | hm
+    · subst e; exact ⟨hc, hw⟩
+    · exact ihall j hm
+
+/-- Seed C15-m8 (`Close` ends with `return nil`): the result of `file.Close()` of a PLAIN put is
+    dropped — PutPath over a file whose close fails reports success — while the atomic branch is
+    unchanged; and the second Close no longer answers storage.ErrClosed. -/
+theorem close_drops_plain_close_error_counterexample :
+    (realPut .dropsPlainCloseError true false [⟨"a".toList, .close, 0⟩] ⟨[], []⟩ "a".toList ["x"]).1 = false ∧
+    (realPut .asCoded true false [⟨"a".toList, .close, 0⟩] ⟨[], []⟩ "a".toList ["x"]).1 = true ∧
+    (realPut .dropsPlainCloseError true true [⟨"a".toList, .close, 0⟩] ⟨[], []⟩ "a".toList ["x"]).1 = true ∧
+    secondCloseIsErrClosed .dropsPlainCloseError false = false ∧
+    (∀ a, secondCloseIsErrClosed .asCoded a = true) := by decide
+
+/-- Seed C09-m7 (the atomic `Close` no longer consults the recorded write error): the helper
+    still returns the write error, but the torn temp file is renamed over the previous object. -/
+theorem close_ignores_write_error_counterexample :
+    let s : Sched := [⟨"a".toList, .write, 1⟩]
+    let d : Dest := ⟨[("a".toList, "OLD")], []⟩
+    (realPut .ignoresWriteErr true true s d "a".toList ["x", "y"]) = (true, ⟨[("a".toList, "x")], [⟨"a".toList, .write, 1⟩]⟩) ∧
+    (realPut .asCoded true true s d "a".toList ["x", "y"]).2.mem = [("a".toList, "OLD")] := by decide
+
+-- non-vacuity
+example : realAll .asCoded true true (some true) false [⟨"b".toList, .close, 0⟩] ⟨[], []⟩
+    [("a".toList, ["x"]), ("b".toList, ["y", "z"])] =
+    (true, ⟨[("b".toList, "yz"), ("a".toList, "x")], [⟨"b".toList, .close, 0⟩]⟩, 1) := by decide
+example : realAll .asCoded false true none true [⟨"a".toList, .close, 0⟩] ⟨[("a".toList, "OLD")], []⟩
+    [("a".toList, ["x"]), ("b".toList, ["y"])] = (true, ⟨[("a".toList, "OLD")], [⟨"a".toList, .close, 0⟩]⟩, 0) := by decide
+example : realAll .asCoded true true (some true) true [] ⟨[("a".toList, "OLD")], []⟩
+    [("a".toList, ["x"]), ("b".toList, ["y"])] = (false, ⟨[("b".toList, "y"), ("a".toList, "x")], []⟩, 2) := by decide
+
 end BufProofs.C15
